@@ -23,7 +23,9 @@ impl TypeFilter {
     ) -> Result<Instruction, Error> {
         let array_type = iterator.return_type();
         let var_type = Type::from(var_type);
-        if !array_type.is_iterator() {
+        // the filtering iterator returns `(false, default)` once exhausted: a type without a
+        // default value (`!`, `(int, !)`, `mut !`) cannot be filtered by
+        if !array_type.is_iterator() || Variable::of_type(&var_type).is_none() {
             return Err(Error::CannotDo2(array_type, BinOperator::Filter, var_type));
         }
         Ok(Self { iterator, var_type }.into())
